@@ -356,11 +356,12 @@ package consensus
 // set of Proposal.POLRound, which exists only for rounds up to Round+1; for any other round the bit
 // array is nil and encoding the ProposalPOL message dereferences nil in a goroutine with no recover).
 //@ func (cs *ConsensusState) setProposal(proposal *types.Proposal) (err error)
-//@   for C18 C03
+//@   for C18 C03 C11
 //@   requires cs != nil && proposal != nil
 //@   requires cs.Validators != nil && (forall i int :: 0 <= i && i < len(cs.Validators.Validators) ==> cs.Validators.Validators[i] != nil)
 //@   modifies *
 //@   atstore RoundState.Proposal requires [polRoundBelowRound] new != nil ==> new.POLRound == 0 || new.POLRound < new.Round
+//@   atstore RoundState.Proposal requires [storedOnlyAfterItsSignatureVerified] new != nil ==> called(VerifySignature) && result(VerifySignature) && new == proposal && sameArray(arg(VerifySignature, 2), proposal.Signature)
 
 // ---------------------------------------------------------------- C19: evidence made by consensus carries the block's time
 // The time of a block at height H is the median of the last commit weighted by the validators of H-1
